@@ -61,6 +61,32 @@ def big_file_cases(d, cases_fails):
     return cases
 
 
+def several_files_cases(d, cases_fails):
+    """several files, one of them empty, read together with include_path=True: every line comes with the path of the
+    file it stands in, for every blocksize and grouping"""
+    import dask.bag as db
+
+    cases, fails = cases_fails
+    contents = {"m0.txt": "a\nb\n", "m1.txt": "", "m2.txt": "c\nd\ne", "m3.txt": "", "m4.txt": "f\n"}
+    sub = os.path.join(d, "multi")
+    os.makedirs(sub, exist_ok=True)
+    for name, text in contents.items():
+        with open(os.path.join(sub, name), "w") as f:
+            f.write(text)
+    want = [(ln, os.path.join(sub, name)) for name, text in sorted(contents.items()) for ln in io.StringIO(text)]
+    for kw in ({"blocksize": None}, {"blocksize": 3}, {"blocksize": 1}, {"blocksize": 100}, {"blocksize": None, "files_per_partition": 2}, {"blocksize": None, "files_per_partition": 5}):
+        cases += 1
+        try:
+            got = db.read_text(os.path.join(sub, "m*.txt"), include_path=True, **kw).compute()
+            got = [(ln, os.path.abspath(p_)) for ln, p_ in got]
+            msg = None if got == want else f"read_text(include_path=True, {kw}) pairs lines with paths as {[(l_, os.path.basename(p_)) for l_, p_ in got]}, the files hold {[(l_, os.path.basename(p_)) for l_, p_ in want]}"
+        except Exception as e:  # noqa
+            msg = f"{type(e).__name__}: {e}"
+        if msg:
+            fails.append(rtc.Failure("read_text", {"content": "<5 files, 2 of them empty>", "linedelimiter": None, "blocksize": kw.get("blocksize"), "self_overlapping_delimiter": False, "options": {"include_path": True, **{k: v for k, v in kw.items() if k != "blocksize"}}}, "ensures", "C50-lines-equal-split-after-delimiter", msg))
+    return cases
+
+
 def sweep(tier, seed=0):
     import dask
     import dask.bag as db
@@ -74,6 +100,7 @@ def sweep(tier, seed=0):
     try:
         with dask.config.set(scheduler="sync"):
             cases = big_file_cases(d, (cases, fails))
+            cases = several_files_cases(d, (cases, fails))
             for idx, text in enumerate(corpus(rnd, tier)):
                 p = os.path.join(d, f"f{idx}.txt")
                 data = text.encode("utf-8")
